@@ -220,6 +220,20 @@ theorem canonical_push_roundtrip (d : Bytes) (h : d.length ≤ 65535) :
     ∃ op, getOp (pushData d) = some (op, d, []) :=
   Lemmas.getOp_pushData d h
 
+/-- Under the WITNESS flag, witness data on an input whose scriptPubKey is neither a witness program nor
+P2SH never verifies (WITNESS_UNEXPECTED), whatever the scripts do. -/
+theorem witness_unexpected (fl : Flags) (chk : Checker) (sig pk : Bytes) (wit : List Bytes)
+    (hw : fl.witness = true) (hne : wit ≠ []) (hwp : witnessProgram? pk = none) (hp : isP2SH pk = false) :
+    verifyScript fl chk sig pk wit ≠ .ok () :=
+  Lemmas.witness_unexpected fl chk sig pk wit hw hne hwp hp
+
+/-- Under the WITNESS flag, a native witness program spent with a non-empty scriptSig never verifies
+(WITNESS_MALLEATED). -/
+theorem witness_malleated (fl : Flags) (chk : Checker) (sig pk : Bytes) (wit : List Bytes) (v : Nat) (p : Bytes)
+    (hw : fl.witness = true) (hwp : witnessProgram? pk = some (v, p)) (hs : sig ≠ []) :
+    verifyScript fl chk sig pk wit ≠ .ok () :=
+  Lemmas.witness_malleated fl chk sig pk wit v p hw hwp hs
+
 /-! ### signature encodings -/
 
 /-- `der_strict ⊆ der_lax`: a signature that satisfies the strict DER rule (BIP66, as enforced under
